@@ -21,6 +21,7 @@ fn shim_zw_write_all<W: Write + io::Seek>(w: &mut ZipWriter<W>, buf: &[u8]) -> (
             && final(w).files@.last().large_file == old(w).files@.last().large_file
             && final(w).inner == old(w).inner && final(w).stats.bytes_written == old(w).stats.bytes_written
             && final(w).stats.hasher@ == old(w).stats.hasher@ && final(w).stats.start == old(w).stats.start,
+        zw_frozen_kept(old(w), final(w)),
         // data mode: the entry records are not touched; on success the whole buffer was accounted
         !old(w).writing_to_extra_field ==> final(w).files@ == old(w).files@,
         r is Ok && !old(w).writing_to_extra_field ==> final(w).stats.hasher@ == old(w).stats.hasher@ + buf@
@@ -58,7 +59,7 @@ fn shim_zw_write_all<W: Write + io::Seek>(w: &mut ZipWriter<W>, buf: &[u8]) -> (
             !old(w).writing_to_extra_field ==> w.stats.hasher@ == old(w).stats.hasher@ + all.subrange(0, all.len() - buf@.len())
                 && w.stats.bytes_written == old(w).stats.bytes_written + (all.len() - buf@.len()),
             old(w).stats.bytes_written + all.len() <= 0x7fff_ffff_ffff_ffff,
-            !old(w).writing_to_extra_field ==> w.files@ == old(w).files@,
+            !old(w).writing_to_extra_field ==> w.files@ == old(w).files@, zw_frozen_kept(old(w), w),
             old(w).inner is Closed ==> w.inner is Closed,
             gzw_method(w.inner) == gzw_method(old(w).inner), zw_wf(old(w)),
             old(w).writing_to_file && !old(w).writing_to_extra_field && gzw_plain(old(w).inner) ==> gzw_plain(w.inner)
@@ -99,6 +100,8 @@ fn shim_zw_write_u16<W: Write + io::Seek>(w: &mut ZipWriter<W>, v: u16) -> (r: i
     ensures
         zw_wf(final(w)) && (zw_room(final(w)) || zw_faulted(final(w)) || final(w).inner is Closed),
         final(w).files@.len() == old(w).files@.len(),
+        forall|i: int| 0 <= i < old(w).files@.len() - 1 ==> final(w).files@[i] == old(w).files@[i],
+        zw_frozen_kept(old(w), final(w)),
         old(w).files@.len() > 0 ==> entry_identity_kept(old(w).files@.last(), final(w).files@.last()),
         r is Ok && zw_clean(old(w)) ==> zw_clean(final(w)),
         final(w).writing_to_file == old(w).writing_to_file && final(w).writing_to_extra_field == old(w).writing_to_extra_field
